@@ -59,7 +59,9 @@ def a_num(rng):
 
 ESC_PIECES = ['\\x0d', '\\x04', '\\xff', '\\x8d', '\\x07', '\\x0a', '\\x5c', '\\x5cx41', '\\x41', '\\x7f', '\\x22' if False else '\\x1b',
               '\\', '\\\\', '\\xZ1', '\\x4', '\\y', '\\x5cx5c', '\\X0D', '\\x5Cx0d',
-              '\\x5cxFF', '\\x5CxA9', '\\x5cxfF', '\\x5cxFf', '\\x5cxaB', '\\x5cxC0', '\\x5cx4A', '\\x5cxa4']      # a literal backslash in front of x and two hex digits of either case
+              '\\x5cxFF', '\\x5CxA9', '\\x5cxfF', '\\x5cxFf', '\\x5cxaB', '\\x5cxC0', '\\x5cx4A', '\\x5cxa4',
+              '\\xa0', '\\x89', '\\x20', '\\x3a', '\\x2c']      # a literal backslash in front of x and two hex digits of either case
+AMP_FORMS = [False]     # switched on by the C14 check
 ESC_LEVEL = [0.15]     # probability that a string-like payload carries escape pieces (raised by the escape stream)
 
 
@@ -141,6 +143,12 @@ def a_data(rng):
             items.append(''.join(rng.choice('ABCDEFGHIJ KLMNOP') for _ in range(rng.randrange(1, 8))).strip() or 'X')
         else:
             items.append(a_str(rng, escapes=True))
+    if rng.random() < ESC_LEVEL[0]:
+        # an unquoted item with escapes (a byte with a meaning of its own - colon, comma, blank - may come out of one), and escaped
+        # blanks where raw ones would not count: behind a comma, behind a string, as the only item
+        items.insert(rng.randrange(len(items) + 1), esc_mix(rng, rng.choice(['AB', 'X', '12', 'A B'])).replace('"', '').replace(',', '').strip() or 'Q')
+        if rng.random() < 0.5:
+            items.append(rng.choice(['\\x20', ' \\x20', 'A\\x2c  ', '"S"\\x20', '\\x20\\x20']))
     if rng.random() < 0.2:
         # the closing quote of the last item may be left out at the end of a line; commas and colons inside belong to the item
         items.append('"' + ''.join(rng.choice('ABC ,:;XYZ') for _ in range(rng.randrange(1, 8))).rstrip())
@@ -237,6 +245,10 @@ def applesoft_program(rng, nlines=None, refs_resolve=True, rem_data=True):
             if rem_data and r < 0.08:
                 stmts.append('REM' + rng.choice(['', ' ', '  ']) + a_rem(rng))
                 break   # REM swallows the rest of the line
+            if AMP_FORMS[0] and 0.14 <= r < 0.17:
+                # REM and DATA as the name of an ampersand command: what follows is an ordinary statement, not a payload
+                stmts.append(rng.choice(['& REM A TO B', '& DATA A+B', '&REM X', '& DATA 1,2', '& REM', f'& DATA {rng.choice(A_VARS)}*2']))
+                continue
             if rem_data and r < 0.14:
                 stmts.append('DATA' + rng.choice(['', ' ']) + a_data(rng))
                 if stmts[-1].count('"') % 2 == 1:
@@ -376,7 +388,7 @@ def merlin_source(rng, nlines=None):
                 lab = cand
         r = rng.random()
         if r < 0.1:
-            lines.append(rng.choice(['* ', '; ']) + a_rem(rng))
+            lines.append(rng.choice(['* ', '; ']) + a_rem(rng) + (rng.choice([' \u00e0 b', ' \u010d x', '\u00e9', ' \u2014 dash']) if rng.random() < 0.15 else ''))
             continue
         if r < 0.18:
             q = rng.choice(['"', "'"])
